@@ -169,6 +169,17 @@ def finish(pid, pmod, tier, seed, results, wall):
             if o['kind'] == 'cover':
                 faults.append(f"vacuity guard failed: {o['name']} ({o['result']})")
                 continue
+            if o['kind'] == 'bounded':
+                # bounded stand-in (never counted as proved): a failure is a concrete failing run of the real code
+                hit = _match_known(o, known)
+                if hit is not None:
+                    known_hits.append((hit, o))
+                    continue
+                rp = os.path.join(VERIF, 'replays', _safe(f"{pid}-{o['name']}") + '.py')
+                with open(rp, 'w') as fh:
+                    fh.write(o.get('replay_native') or ('# bounded stand-in failed\n# ' + str(o.get('note')) + '\nimport sys; sys.exit(1)\n'))
+                violations.append((o, rp, ''))
+                continue
             if o['result'] in ('unknown',):
                 undecided.append(o)
                 continue
@@ -194,7 +205,7 @@ def finish(pid, pmod, tier, seed, results, wall):
                 continue
             if reproduced:
                 violations.append((o, rp, ''))
-            elif o['role'] == 'clause' and not route_failed:
+            elif o['role'] == 'clause':
                 if rp is None:
                     rp = os.path.join(VERIF, 'replays', _safe(f"{pid}-{o['name']}") + '.txt')
                 with open(rp, 'a' if rp.endswith('.py') else 'w') as fh:
@@ -208,7 +219,7 @@ def finish(pid, pmod, tier, seed, results, wall):
             else:
                 undecided.append(o)
     # ---- report
-    n_obl = len([o for o in all_obls if o['kind'] != 'cover'])
+    n_obl = len([o for o in all_obls if o['kind'] not in ('cover', 'bounded')])
     if n_obl == 0 and not faults:
         faults.append('zero obligations generated for this property')
     printed = set()
@@ -224,7 +235,10 @@ def finish(pid, pmod, tier, seed, results, wall):
     for f in faults:
         print(f"CHECKER-FAULT property={pid} {f}")
     known_names = {o['name'] for _, o in known_hits}
-    counted = [o for o in all_obls if o['kind'] != 'cover' and o['name'] not in known_names]
+    counted = [o for o in all_obls if o['kind'] not in ('cover', 'bounded') and o['name'] not in known_names]
+    for o in all_obls:
+        if o['kind'] == 'bounded':
+            bounded.append({'check': o['name'], 'what': o.get('note'), 'result': 'held on everything tried' if o['ok'] else 'FAILED', 'cases': o.get('cases'), 'seconds': o['time']})
     discharged = [o for o in counted if o['ok']]
     by_kind, by_backend = {}, {}
     for o in counted:
